@@ -81,9 +81,10 @@ fn csp_rule(r: &mut Rng) -> String {
     if r.chance(1, 14) {
         opts.push("important".into());
     }
-    if r.chance(1, 30) {
-        // rejected by validate_options: csp with an explicit content type
-        opts.push((r.pick(&["script", "subdocument", "document", "~image"])).to_string());
+    if r.chance(1, 15) {
+        // rejected by validate_options: csp with an explicit content type, written before or after csp
+        let t = (r.pick(&["script", "subdocument", "document", "~image", "font", "xhr"])).to_string();
+        if r.chance(1, 2) { opts.insert(0, t); } else { opts.push(t); }
     }
     if r.chance(1, 30) {
         opts.push("badfilter".into());
@@ -94,6 +95,17 @@ fn csp_rule(r: &mut Rng) -> String {
         opts.push(o);
     }
     format!("{}{}${}", if exception { "@@" } else { "" }, pat, opts.join(","))
+}
+
+/// Does the option list of this line hold a csp option and an explicit resource-type option?
+fn csp_with_explicit_type(line: &str) -> bool {
+    let Some(i) = line.rfind('$') else { return false };
+    let opts: Vec<&str> = line[i + 1..].split(',').map(|o| o.trim()).collect();
+    let has_csp = opts.iter().any(|o| *o == "csp" || o.starts_with("csp="));
+    let types = ["script", "image", "stylesheet", "xmlhttprequest", "subdocument", "document", "font", "media", "object", "ping", "websocket", "other", "xhr", "css", "frame", "doc", "beacon", "object-subrequest"];
+    // (the value of csp= may contain commas only inside the directive text, which the option splitter
+    // does not support either: the generator's directives have none)
+    has_csp && opts.iter().any(|o| types.contains(&o.trim_start_matches('~')))
 }
 
 fn gen_rules(r: &mut Rng) -> Vec<String> {
@@ -625,6 +637,17 @@ fn main() {
             continue;
         }
         let Some(o) = eval(&c) else { cs.stat("request_error"); continue };
+        // a csp option together with an explicit resource-type option is not a rule (the policy applies
+        // to documents; uBO and the crate's validate_options refuse the combination), wherever in the
+        // option list the type is written: such a line must not be loaded
+        for l in &c.rules {
+            if csp_with_explicit_type(l) {
+                cs.stat("csp_with_explicit_type_line");
+                if implrun::net::parse_net(l).is_some() {
+                    sm.failure(None, &format!("the line {:?} combines csp with an explicit resource type and must be rejected, but it is loaded as a rule", l), c.json());
+                }
+            }
+        }
         let st = o.last();
         let matching = o.matching(&st.set);
         sm.oracle_evaluations += o.steps.len() as u64;
